@@ -9,7 +9,7 @@
 (* one run reports all deviations.  No expectation is computed outside the *)
 (* specification modules this module extends.                              *)
 (***************************************************************************)
-EXTENDS Bytes, Prim, HdwIO, Numbers, Rlp, Ecdsa, Tx, Bip39, Json, IOUtils, TLC, FiniteSets
+EXTENDS Bytes, Prim, HdwIO, Numbers, Rlp, Ecdsa, Tx, Bip39, HdPath, Bip32, SigText, Json, IOUtils, TLC, FiniteSets
 
 Rec == ndJsonDeserialize(IOEnv.HDW_TRACE)
 
@@ -82,6 +82,103 @@ JudgeTxSign(e) ==
              ELSE IF cls = "accept" THEN {D({"C06"}, "crash_on_wellformed", "")}
              ELSE IF cls = "reject" THEN {D({"C13"}, "crash_on_malformed", "")}
              ELSE {})
+          ELSE {})]
+
+-----------------------------------------------------------------------------
+\* path.parse : in = [text]   out.ok = [display, comps = << <<hardened, "decimal">> >>]
+ObservedComps(cs) == [i \in 1..Len(cs) |-> Comp(cs[i][1], BnFromDec(DecVals(StrToUtf8(cs[i][2]))))]
+PathDevs(o, p, props) ==
+  IF IsOk(o) THEN
+    (IF p.c = "reject" THEN {D(props, "accepted_path_" \o p.why, o.ok.display)}
+     ELSE (IF StrToUtf8(o.ok.display) # PrintPath(p.comps) THEN {D(props, "path_display", o.ok.display)} ELSE {})
+          \cup (IF ObservedComps(o.ok.comps) # p.comps THEN {D(props, "path_components", o.ok.display)} ELSE {}))
+  ELSE IF IsErr(o) THEN (IF p.c = "accept" THEN {D(props, "rejected_standard_path", o.err)} ELSE {})
+  ELSE IF p.c \in {"accept", "reject"} THEN {D(props, "crash_" \o p.c, "")}
+  ELSE {}
+JudgePathParse(e) ==
+  LET p == Classify(StrToUtf8(e.in.text))
+  IN  [cls |-> p.c, devs |-> CrashDevs(e.out) \cup PathDevs(e.out, p, {"C14"})]
+
+\* path.for_index : in = [index = "decimal"]   out.ok = [display]
+JudgeForIndex(e) ==
+  LET o   == e.out
+      idx == BnFromDec(DecVals(StrToUtf8(e.in.index)))
+      std == BnLt(idx, Two31)
+  IN  [cls |-> IF std THEN "accept" ELSE "open",
+       devs |-> CrashDevs(o) \cup
+         (IF ~std THEN {}
+          ELSE IF IsOk(o) /\ StrToUtf8(o.ok.display) = PrintPath(ForIndex(idx)) THEN {}
+          ELSE {D({"C14"}, "for_index", IF IsOk(o) THEN o.ok.display ELSE "no path")})]
+
+\* hdk.derive : in = [seed, path]   out.ok = [secret, addr, path]  | err with stage
+JudgeDerive(e) ==
+  LET o == e.out
+      p == Classify(StrToUtf8(e.in.path))
+      seed == Hx(e.in.seed)
+  IN  [cls |-> p.c,
+       devs |-> CrashDevs(o) \cup
+         (IF IsOk(o) THEN
+            (IF p.c = "reject" THEN {D({"C14"}, "accepted_path_" \o p.why, o.ok.path)}
+             ELSE LET st == Derive(seed, p.comps) IN
+               (IF StrToUtf8(o.ok.path) # PrintPath(p.comps) THEN {D({"C14"}, "path_display", o.ok.path)} ELSE {})
+               \cup (IF ~st.ok THEN {D({"C03"}, "derived_where_bip32_says_invalid", "")}
+                     ELSE (IF Hx(o.ok.secret) # st.k THEN {D({"C03", "C14"}, "derived_key_mismatch", o.ok.secret)} ELSE {})
+                          \cup (IF Hx(o.ok.addr) # AddressOf(st.k) THEN {D({"C04"}, "address_mismatch", o.ok.addr)} ELSE {})))
+          ELSE IF IsErr(o) THEN
+            (IF p.c = "accept" /\ o.stage = "path" THEN {D({"C14"}, "rejected_standard_path", o.err)}
+             ELSE IF p.c = "accept" /\ Derive(seed, p.comps).ok THEN {D({"C03"}, "derivation_error", o.err)}
+             ELSE {})
+          ELSE {})]
+
+\* key.new : in = [secret]   out.ok = [secret, pub, addr, addr_display, debug]
+JudgeKeyNew(e) ==
+  LET o == e.out
+      b == Hx(e.in.secret)
+      valid == InScalarRange(b) /\ Len(BnNorm(b)) <= 32
+      cls == IF Len(b) = 32 THEN (IF valid THEN "accept" ELSE "reject")
+             ELSE (IF valid THEN "either" ELSE "reject")
+      d == BnFixed(b, 32)
+  IN  [cls |-> cls,
+       devs |-> CrashDevs(o) \cup
+         (IF IsOk(o) THEN
+            (IF cls = "reject" THEN {D({"C04"}, "accepted_invalid_secret", e.in.secret)}
+             ELSE (IF Hx(o.ok.secret) # d THEN {D({"C04"}, "secret_mismatch", o.ok.secret)} ELSE {})
+                  \cup (IF Hx(o.ok.pub) # Pub65(d) THEN {D({"C04"}, "public_key_mismatch", o.ok.pub)} ELSE {})
+                  \cup (IF Hx(o.ok.addr) # AddressOf(d) THEN {D({"C04"}, "address_mismatch", o.ok.addr)} ELSE {})
+                  \cup (IF StrToUtf8(o.ok.addr_display) # Eip55(AddressOf(d)) THEN {D({"C04"}, "eip55_mismatch", o.ok.addr_display)} ELSE {}))
+          ELSE IF IsErr(o) THEN (IF cls = "accept" THEN {D({"C04"}, "rejected_valid_secret", o.err)} ELSE {})
+          ELSE {})]
+
+\* key.sign : in = [secret, digest]   out.ok = [r, s, par, display, again, addr]
+JudgeKeySign(e) ==
+  LET o == e.out
+      d == Hx(e.in.secret)
+      z == Hx(e.in.digest)
+  IN  [cls |-> IF BnLt(z, CurveN) THEN "accept" ELSE "either",
+       devs |-> CrashDevs(o) \cup
+         (IF IsOk(o) THEN
+            LET sig == [r |-> Hx(o.ok.r), s |-> Hx(o.ok.s), par |-> o.ok.par]
+                exp == Sign(d, z)
+            IN  (IF ~GoodSignature(d, z, sig.r, sig.s, sig.par) THEN {D({"C05"}, "signature_invalid", o.ok.display)} ELSE {})
+                \cup (IF BnLt(z, CurveN) /\ (sig.r # exp.r \/ sig.s # exp.s \/ sig.par # exp.par)
+                      THEN {D({"C05"}, "not_rfc6979", o.ok.display)} ELSE {})
+                \cup (IF ~o.ok.again THEN {D({"C05"}, "signing_not_deterministic", "")} ELSE {})
+                \cup (IF Hx(o.ok.addr) # AddressOf(d) THEN {D({"C04"}, "address_mismatch", o.ok.addr)} ELSE {})
+                \cup (IF StrToUtf8(o.ok.display) # PrintSig(sig) THEN {D({"C15"}, "signature_display", o.ok.display)} ELSE {})
+          ELSE {D({"C05"}, "signing_failed", "")})]
+
+\* sig.parse : in = [text]   out.ok = [r, s, par, display]
+JudgeSigParse(e) ==
+  LET o == e.out
+      p == ParseSig(StrToUtf8(e.in.text))
+  IN  [cls |-> p.c,
+       devs |-> CrashDevs(o) \cup
+         (IF IsOk(o) THEN
+            (IF p.c = "reject" THEN {D({"C15"}, "accepted_bad_signature_" \o p.why, "")}
+             ELSE (IF [r |-> Hx(o.ok.r), s |-> Hx(o.ok.s), par |-> o.ok.par] # p.sig THEN {D({"C15"}, "parsed_signature_differs", o.ok.display)} ELSE {})
+                  \cup (IF StrToUtf8(o.ok.display) # PrintSig(p.sig) THEN {D({"C15"}, "signature_display", o.ok.display)} ELSE {}))
+          ELSE IF IsErr(o) THEN (IF p.c = "accept" THEN {D({"C15"}, "rejected_printed_signature", o.err)} ELSE {})
+          ELSE IF p.c \in {"accept", "reject"} THEN {D({"C15"}, "crash_" \o p.c, "")}
           ELSE {})]
 
 -----------------------------------------------------------------------------
@@ -165,6 +262,12 @@ JudgeEvent(e) ==
          [] e.op = "mnemonic.parse"  -> JudgeMnParse(e)
          [] e.op = "mnemonic.seed"   -> JudgeMnSeed(e)
          [] e.op = "mnemonic.random" -> JudgeMnRandom(e)
+         [] e.op = "path.parse"      -> JudgePathParse(e)
+         [] e.op = "path.for_index"  -> JudgeForIndex(e)
+         [] e.op = "hdk.derive"      -> JudgeDerive(e)
+         [] e.op = "key.new"         -> JudgeKeyNew(e)
+         [] e.op = "key.sign"        -> JudgeKeySign(e)
+         [] e.op = "sig.parse"       -> JudgeSigParse(e)
          [] e.op = "rlp.len"   -> JudgeRlpLen(e)
          [] e.op = "rlp.bytes" -> JudgeRlpBytes(e)
          [] e.op = "rlp.uint"  -> JudgeRlpUint(e)
